@@ -142,6 +142,34 @@ def stream_lcf(ctx, built=True, oracle=None):
         cases.append(case)
         S.count((salt, supp_tok(p), kind, tuple(map(tuple, rows))), any(abs(d - p.low_threshold) <= 4 or d >= cap - 1 for d in distinct),
                 None if len(rows) > 12 else case, tag=f"ecnt/{kind[0]}{dims}")
+    # one live counter asked repeatedly while it grows (and with changing thresholds): every answer must be the answer for the
+    # entities seen so far - the decision is a function of the entity sets, not of earlier questions
+    from dataclasses import replace as _replace
+    for _ in range(ctx.scale(400, 6000)):
+        salt, p0 = rand_salt(R), rand_supp(R)
+        if R.random() < 0.3:
+            kind, dims = ("u",), 1
+        else:
+            dims = R.choice([1, 1, 2]); kind = ("g", dims, R.choice([6, 10, 21, 21]))
+        from syndiffix.counters import UniquePidCountersFactory, GenericPidCountersFactory
+        live = (UniquePidCountersFactory() if kind[0] == "u" else GenericPidCountersFactory(kind[1], kind[2])).create_entity_counter()
+        seen_rows, used = [], set()
+        zone = max(1, int(round(p0.low_threshold + p0.low_mean_gap * p0.layer_sd)) + R.randint(-2, 1))      # around the noisy mean
+        nsteps = R.choice([3, 5, 7])
+        for step in range(nsteps):
+            for _k in range(zone if step == 0 else R.choice([1, 1, 1, 2])):
+                row = [R.choice([0] + [R.getrandbits(64) or 1]) if R.random() < 0.1 else (R.getrandbits(64) or 1) for _d in range(dims)]
+                if kind[0] == "u" and row[0] in used: continue
+                used.add(row[0]); seen_rows.append(row); live.add(np.array(row, dtype=U64))
+            p = p0 if R.random() < 0.6 else _replace(p0, low_threshold=max(1, p0.low_threshold + R.choice([-2, -1, 1])))
+            low = live.is_low_count(salt, p)
+            lines.append(f"ecnt {salt_hex(salt)} {supp_tok(p)} {kind_tok(kind)} {len(seen_rows)} " + " ".join(" ".join(map(str, r)) for r in seen_rows))
+            exp.append(("1" if low else "0") + " *")
+            distinct = [len({r[d] for r in seen_rows} - {0}) for d in range(dims)]
+            case = {"op": "ecnt", "salt": salt, "lt": p.low_threshold, "sd": p.layer_sd, "gap": p.low_mean_gap, "kind": kind, "rows": [list(r) for r in seen_rows],
+                    "distinct": distinct, "impl_low": low, "asked_before": step}
+            cases.append(case)
+            S.count((salt, supp_tok(p), kind, tuple(map(tuple, seen_rows))), step > 0, None if len(seen_rows) > 12 else case, tag=f"ecnt-live/{kind[0]}{dims}")
     if built:
         got = drive(lines)
         for l, e, g in zip(lines, exp, got):
@@ -188,6 +216,8 @@ def py_cntm(A, ap, bucket_seed, contribs):
         r = A.count_multiple_contributions(AnonymizationContext(U64(bucket_seed), ap), cl)
     except RuntimeError as e:
         return "ERR impossible"
+    except Exception as e:      # the routine is total on these inputs: any other exception is a difference from the model
+        return f"ERR raised {type(e).__name__}"
     return "none" if r is None else str(int(r.anonymized_count))
 
 
